@@ -6,9 +6,10 @@ from ..e2e import HEADER, CASE_TYPE, CHECK, MODEL_VIEW, SHARD, CASE_TIMEOUT, obs
 
 ID = "C17"
 THEOREMS = ["C17_inv", "C17_token_pos", "C17_lines", "C17_lex_error", "C17_node_error_label_pass", "C17_node_error_emit",
-            "C17_prefix_line", "C17_prefix_col", "C17_prefix_text", "C17_file_info", "C17_file_info_not_before"]
+            "C17_prefix_line", "C17_prefix_col", "C17_prefix_text", "C17_file_info", "C17_file_info_not_before",
+            "C17_leading_lines", "C17_prefix_only_counts", "C17_rest_tokens"]
 # model-tie modules whose correspondence is part of this property's check (parts of the model its theorems rest on)
-TIES = ['SCAN', 'PARSE']
+TIES = ['SCAN', 'PARSE', 'MSG']
 RULE = ("valid generated programs x every top-level line position x erroneous statement kind (undefined symbol in an "
         "operand, in .db/.dw/.dl, in *=; bad size suffix; bad index register; unterminated string with and without a "
         "following line; invalid character; .text without table), in the main file and in an .include'd file, with random "
@@ -19,7 +20,15 @@ PROVED_NOTE = ("proved: the scanner's line-tracking invariant; every token's lin
                "token with its line quoted; a NodeError raised in a pass carries the file_info token of the failing node; the "
                "closed forms are prefix independent (line shifted by the number of preceding newlines, column and quoted "
                "line unchanged). every statement's node carries as file_info a token of the statement itself at a "
-               "fixed offset (parser model). Correspondence-only: the message formatting.")
+               "fixed offset (parser model). COMPOSED on source text (assemble_source): comment/blank lines in front of any source "
+               "shift every report (scanner error, parser error, NodeError site) by exactly their number and change nothing else; "
+               "for two layouts of the same prefix statements a NodeError of the rest is reported with the same token, column "
+               "and file and the line moved by the difference of the line counts (scanner compositional at line ends; parser, code "
+               "generation and passes proved blind to positions). The TEXT of the reports (Position.__str__, Token.trace, "
+               "NodeError.__str__, the string parse_as_ast returns) is modelled (Model/Messages.v), proved to determine and be "
+               "determined by the fields, to quote line_text and to put the caret at col_of, prefix independent, and tied by exact "
+               "string comparison (model tie MSG). Correspondence-only: that the code computes what the models compute; "
+               "messages that embed object addresses are compared by prefix/suffix.")
 MANIFEST = {
     "text": ("Coq theorems on the scanner model (positions of tokens and of every ScannerException site, for all texts) and "
              "on the pass model (site of a NodeError), plus prefix-independence of the closed forms; composed pipeline model "
